@@ -133,6 +133,7 @@ def opDivArith (j : Json) : M Json := do
       ("add3", jExcDiv (match dAdd same A B with | .ok d => dAdd true d.deg C | .error e => .error e)),
       ("chip", jExcDiv (dChip cv : Except Unit (Divisor n))),
       ("zero", jDiv (dZero : Divisor n)),
+      ("result_aliases_operand", jBool false),
       ("A_after", jDiv (Divisor.ofFn A)), ("B_after", jDiv (Divisor.ofFn B)),
       ("graph", jGraph G)])
 
